@@ -26,7 +26,7 @@ def run(chk, scratch):
     thorough = chk.tier == "thorough"
     chk.rule = ("per world: reference run (.gtf + --complete_genedb, one BAM) versus .gtf.gz, inferred genes/transcripts, pre-built .db (built with the tree's "
                 "own gtf2db, complete and inferred), cached conversion (second run under the same HOME must report the cached database) and --clean_start; "
-                "the same records split into 2-5 BAMs at random, by chromosome, and so that equal-coordinate records land in different files (one of them with its @SQ header lines in another order). "
+                "the same records split into 2-5 BAMs at random, by chromosome, so that equal-coordinate records land in different files, and so that the primary record of a read whose secondary record has the same start and end sits in the last file (one of them with its @SQ header lines in another order). "
                 "non-trivial = distinct (representation kind, #files, tie present, cache hit) tuples")
     n_worlds = 5 if thorough else 1
     for wi in range(n_worlds):
@@ -39,6 +39,14 @@ def run(chk, scratch):
         for r in rng.sample(base_reads, 25):
             from vlib.world import Read
             w.reads.append(Read(r.name + "_twin", r.chrom, r.pos0, list(r.cigar), r.seq, r.flag, r.mapq, list(r.tags), dict(r.truth, twin=True)))
+        # reads with a primary and a secondary record that have the SAME start and end and different junctions (the secondary skips the
+        # second exon); one partition puts the primary records of these reads into the last file
+        full = [r for r in base_reads if r.truth.get("mode") == "full" and not r.truth.get("indels") and len(r.aligned_exons()) >= 4
+                and not r.cigar[0][0] == 4 and not r.cigar[-1][0] == 4]
+        for r in rng.sample(full, min(8, len(full))):
+            ex = r.aligned_exons()
+            w.make_read(r.chrom, [ex[0]] + ex[2:], name=r.name, flag=256 | (r.flag & 16), truth=dict(r.truth, same_span_secondary=True))
+            r.truth["same_span_primary"] = True
         pipeline.write_world(w, d)
         gtf = os.path.join(d, "a.gtf")
         with open(gtf, "rb") as f, gzip.open(os.path.join(d, "a.gtf.gz"), "wb") as g:
@@ -72,6 +80,7 @@ def run(chk, scratch):
         write_parts("random3", lambda r: rmap[r.name], 3)
         write_parts("bychrom", lambda r: w.chrom_order.index(r.chrom) % 2, 2)
         write_parts("twins-apart", lambda r: 1 if r.truth.get("twin") else 0, 2)
+        write_parts("primary-last", lambda r: 1 if (r.truth.get("same_span_primary") and not r.flag & 256) else 0, 2)
         if thorough:
             rmap5 = {r.name: rng.randrange(5) for r in mapped}
             write_parts("random5", lambda r: rmap5[r.name], 5)
